@@ -261,6 +261,15 @@ def record(src):
 
     if src['k'] == 'eval':
         c = build(src)
+        if src.get('vs', 0) % 4 == 1 and len(c.gates) > 0:
+            # a circuit with a past: a gate was put on top of an existing one and removed again (the netlist is the
+            # same as before; bookkeeping such as an emptied users entry stays behind)
+            base = list(c.gates)[(src.get('vs', 0) // 4) % len(c.gates)]
+            try:
+                c.emplace_gate('tmp_gate_of_the_past', G.NOT, (base,))
+                c.remove_gate('tmp_gate_of_the_past')
+            except Exception:
+                pass
         return {'kind': 'eval', 'c': project(c), 'obs': observe_eval(c), 'src': src}
     if src['k'] in ('optable', 'ttcode', 'pattern'):
         # what the library raises while one of its gate tables is read is an observation, not a harness failure
